@@ -5,7 +5,10 @@ Model: lean/Pose/Model/Lie.lean (so3Exp, so3Jl, se3Exp, rxso3Exp, rxso3Ws, sim3E
 Theorems: lean/Proofs/Props/C01.lean.
 
 Correspondence streams (real code in-process, batched, vs the model in 192-bit arithmetic)
-  grid   : deterministic cross product of the theta ladder x the signed sigma ladder (every regime pair of
+  corpus : seed-independent corner corpus: every pair of (theta, sigma) corner values (0, tiny, switch-over point
+           -1 ulp / exact / +1 ulp, sqrt(eps), O(1), pi, 2pi, 4pi, |sigma| = 8) along an axis (norm exact) and a generic
+           direction, fixed translations (0, O(1), 1e3, 1e-30), fixed mixed-regime batch cuts, degenerate shapes;
+  grid   : cross product of the theta ladder x the signed sigma ladder (every regime pair of
            rxso3_Ws and its boundaries, angles beyond pi) for all four types and both dtypes, random
            directions / translations, mixed-regime batches;
   random : random structured elements (blocks drawn independently from ladders, dense bands around eps and
@@ -48,7 +51,7 @@ META = {
 }
 
 K_ROT, K_SCALE, K_TRANS, K_UNIT = 16.0, 16.0, 4.0, 8.0
-THETA_MAX, SIGMA_MAX, TAU_MAX = 7.0, 8.0, 1e3
+THETA_MAX, SIGMA_MAX, TAU_MAX = 4 * math.pi, 8.0, 1e3
 
 
 def alg_ltype(name):
@@ -60,7 +63,8 @@ def alg_ltype(name):
 def theta_ladder(e):
     se = math.sqrt(e)
     return [0.0, 1e-30, e / 2, e * (1 - 2 ** -10), e, e * (1 + 2 ** -10), 2 * e, 1e-12, 1e-9, se, 1e-6, 1e-3, 0.1, 1.0,
-            3.0, math.pi - 1e-6, math.pi, math.pi + 1e-3, 5.0, 2 * math.pi - 1e-6, 2 * math.pi + 1e-6, 7.0]
+            3.0, math.pi - 1e-6, math.pi, math.pi + 1e-3, 5.0, 2 * math.pi - 1e-6, 2 * math.pi + 1e-6, 7.0, 3 * math.pi, 10.0,
+            4 * math.pi - 1e-6, 4 * math.pi]
 
 
 def sigma_ladder(e):
@@ -72,7 +76,7 @@ def sigma_ladder(e):
 def gen_theta(rng, e):
     c = rng.random()
     if c < 0.45:
-        return rng.choice(theta_ladder(e) + common.ladder(e))
+        return rng.choice(theta_ladder(e) + common.ladder(e) + common.ladder_big())
     if c < 0.55:
         return e * (1 + rng.choice([-1, 1]) * 2.0 ** -rng.randint(1, 45))       # dense around the switch-over
     if c < 0.63:
@@ -100,6 +104,13 @@ def gen_sigma(rng, e):
     return s * rng.uniform(1.0, SIGMA_MAX)
 
 
+def gen_tau(rng, e):
+    """translation magnitude: 0, ladder 1e-30..1e3, log-uniform 1e-6..1e3, occasionally far beyond (1e3..1e12)"""
+    if rng.random() < 0.08:
+        return 10 ** rng.uniform(3, 12)
+    return U.gen_mag(rng, e, TAU_MAX)
+
+
 def make_item(rng, name, e, th, sg, tm):
     """algebra element in storage order from block magnitudes"""
     out = []
@@ -112,7 +123,7 @@ def make_item(rng, name, e, th, sg, tm):
 
 
 def gen_item(rng, name, e):
-    return make_item(rng, name, e, gen_theta(rng, e), gen_sigma(rng, e), U.gen_mag(rng, e, TAU_MAX))
+    return make_item(rng, name, e, gen_theta(rng, e), gen_sigma(rng, e), gen_tau(rng, e))
 
 
 def blocks_of(name, xi):
@@ -159,8 +170,8 @@ def tscale_of(name, xi):
         return None
     c = 1.0
     if sg is not None and sg != 0:
-        c = math.expm1(sg) / sg
-    return U.max_abs(tau) * max(1.0, c)
+        c = math.expm1(sg) / sg      # the coupling matrix W has the eigenvalue C = (e^sigma - 1)/sigma along phi
+    return U.max_abs(tau) * c
 
 
 # ----------------------------------------------------------------------------- comparison of one item
@@ -208,6 +219,10 @@ def run_impl(name, dtype, rows64, shape, api=0):
     n, g, a = U.MATN[name], U.GDIM[name], U.ADIM[name]
     data = torch.tensor(rows64, dtype=torch.float64).reshape(tuple(shape) + (a,)).to(D)
     problems = []
+    if api == 3:     # non-contiguous view as input
+        big = torch.zeros(tuple(shape) + (2 * a,), dtype=D)
+        big[..., ::2] = data
+        data = big[..., ::2]
     if api == 2:     # wrapper constructors of utils.py
         x = getattr(P, U.ALG[name])(data)
     else:
@@ -358,7 +373,7 @@ def run_grid(ctx: Ctx, lines, metas, reps_per_cell=1):
             for th in theta_ladder(e):
                 for sg in sigs:
                     for _ in range(reps_per_cell * (1 if len(sigs) > 1 else 8)):
-                        items.append(make_item(rng, name, e, th, sg, U.gen_mag(rng, e, TAU_MAX)))
+                        items.append(make_item(rng, name, e, th, sg, gen_tau(rng, e)))
             for rows, shape in batches_from(rng, items):
                 check_batch(ctx, "grid", name, dtype, rows, shape, rng.randrange(3), lines, metas)
 
@@ -378,7 +393,7 @@ def run_random(ctx: Ctx, n_batches, lines, metas):
             shape = (rng.randint(2, 12),)
         n = int(math.prod(shape))
         rows = [gen_item(rng, name, e) for _ in range(n)]
-        check_batch(ctx, "random", name, dtype, rows, shape, rng.randrange(3), lines, metas)
+        check_batch(ctx, "random", name, dtype, rows, shape, rng.randrange(4), lines, metas)
 
 
 def run_repeat(ctx: Ctx, n_rounds, lines, metas):
@@ -400,6 +415,66 @@ def run_repeat(ctx: Ctx, n_rounds, lines, metas):
                                           U.gen_mag(rng, e, TAU_MAX)))
             check_batch(ctx, "repeat", name, dtype, rows, shape, 0, lines, metas, extra={"round": k})
 
+
+
+# ----------------------------------------------------------------------------- deterministic corner corpus
+
+def corner_values(e):
+    """switch-over point -1 ulp / exact / +1 ulp, zero, tiny, sqrt(eps), O(1), extremes — all exactly representable"""
+    up, dn = e * (1 + e), e * (1 - e / 2)
+    se = math.sqrt(e)
+    th = [0.0, 1e-30, dn, e, up, 2 * e, 64 * e, se, 1e-3, 1.0, math.pi, math.pi * (1 + 2 * e), 2 * math.pi, 7.0, THETA_MAX]
+    sg_pos = [1e-30, dn, e, up, 2 * e, 64 * e, e * 2.0 ** 20, se, 1e-3, 1.0, SIGMA_MAX]
+    return th, [0.0] + sg_pos + [-v for v in sg_pos]
+
+
+CORNER_DIRS = [(0.0, 0.0, 1.0), (0.36, -0.48, 0.8)]
+CORNER_TAUS = [(0.0, 0.0, 0.0), (1.0, -2.0, 0.5), (TAU_MAX, 0.0, 0.0), (1e-30, 1e-30, -1e-30), (-0.3, 0.4, 1e-9), (2e6, -1e9, 3e3)]
+
+
+def run_corpus(ctx: Ctx, lines, metas):
+    """seed-independent: every (theta, sigma) corner pair, axis-aligned (norm exact) and generic direction, fixed
+    translations, fixed batch cuts (mixed regimes), degenerate shapes"""
+    for dtype in ("float64", "float32"):
+        e = common.EPS[dtype]
+        ths, sgs = corner_values(e)
+        for name in U.GROUPS:
+            items, k = [], 0
+            for th in ths:
+                for d in CORNER_DIRS:
+                    for sg in (sgs if name in ("RxSO3", "Sim3") else [0.0]):
+                        out = []
+                        if name in ("SE3", "Sim3"):
+                            out += list(CORNER_TAUS[k % len(CORNER_TAUS)])
+                        out += [th * d[0], th * d[1], th * d[2]]
+                        if name in ("RxSO3", "Sim3"):
+                            out.append(sg)
+                        items.append(out)
+                        k += 1
+            # logarithmic sweeps, 4 points per decade: no band of theta or |sigma| wider than a quarter decade is skipped
+            d = CORNER_DIRS[1]
+            has_s, has_t = name in ("RxSO3", "Sim3"), name in ("SE3", "Sim3")
+            sw = []
+            for j in range(-72, 5):          # theta = 1e-18 .. 10
+                th = 10.0 ** (j / 4)
+                for sg in ((0.0, 1e-30, -e / 2, 3e-9, -1e-3, 1.0) if has_s else (0.0,)):
+                    sw.append((th, sg))
+            if has_s:
+                for j in range(-72, 4):      # |sigma| = 1e-18 .. 5.6
+                    for sgn in (1.0, -1.0):
+                        for th in (0.0, e / 2, 1e-9, 1e-3, 1.0, 4.0):
+                            sw.append((th, sgn * 10.0 ** (j / 4)))
+            for th, sg in sw:
+                out = (list(CORNER_TAUS[1]) if has_t else []) + [th * d[0], th * d[1], th * d[2]] + ([sg] if has_s else [])
+                items.append(out)
+            for i in range(0, len(items), 23):
+                rows = items[i:i + 23]
+                check_batch(ctx, "corpus", name, dtype, rows, (len(rows),), (i // 23) % 4, lines, metas)
+            # degenerate shapes
+            z = [0.0] * U.ADIM[name]
+            one = items[len(items) // 2]
+            for shape, rows in (((), [one]), ((1,), [z]), ((1, 1, 1), [one]), ((0,), []), ((2, 0), []), ((2, 1, 2), [z, one, one, z])):
+                check_batch(ctx, "corpus", name, dtype, rows, shape, 0, lines, metas)
 
 # ----------------------------------------------------------------------------- oracle (mpmath, the property itself)
 
@@ -490,7 +565,7 @@ def run_oracle(ctx: Ctx, n_items):
         if k % 2 == 0:
             xi = gen_item(rng, name, e)
         else:
-            xi = make_item(rng, name, e, rng.choice(theta_ladder(e)), rng.choice(sigma_ladder(e)), U.gen_mag(rng, e, TAU_MAX))
+            xi = make_item(rng, name, e, rng.choice(theta_ladder(e)), rng.choice(sigma_ladder(e)), gen_tau(rng, e))
         xi = U.to_dtype_exact([xi], dtype)[1][0].tolist()
         case = {"stream": "oracle", "type": name, "dtype": dtype, "shape": [1], "api": 0, "X": [xi]}
         oracle_batch(ctx, case)
@@ -500,13 +575,31 @@ def run_oracle(ctx: Ctx, n_items):
 
 # ----------------------------------------------------------------------------- entry points
 
+def confirm_disagreements(ctx: Ctx, limit=12):
+    """turn model/implementation disagreements into concrete failing inputs of the property itself (mpmath oracle)"""
+    seen = set()
+    for d in ctx.disagreements:
+        c = d["case"]
+        if "X" not in c or "item" not in c:
+            continue
+        key = (c["type"], c["dtype"], regime_tag(c["type"], c["X"][c["item"]], common.EPS[c["dtype"]]).split("/tau")[0])
+        if key in seen:
+            continue
+        seen.add(key)
+        oracle_batch(ctx, {k2: v for k2, v in c.items() if k2 != "item"}, items=[c["item"]])
+        if len(seen) >= limit:
+            break
+
+
 def run(ctx: Ctx):
     lines, metas = [], []
-    run_grid(ctx, lines, metas, reps_per_cell=ctx.pick(1, 6))
-    run_random(ctx, ctx.pick(600, 9000), lines, metas)
-    run_repeat(ctx, ctx.pick(12, 200), lines, metas)
+    run_corpus(ctx, lines, metas)
+    run_grid(ctx, lines, metas, reps_per_cell=ctx.pick(1, 10))
+    run_random(ctx, ctx.pick(600, 20000), lines, metas)
+    run_repeat(ctx, ctx.pick(12, 400), lines, metas)
     compare_all(ctx, lines, metas)
-    run_oracle(ctx, ctx.pick(300, 4000))
+    confirm_disagreements(ctx)
+    run_oracle(ctx, ctx.pick(300, 8000))
 
 
 def search(ctx: Ctx):
